@@ -619,34 +619,435 @@ theorem J_sweepByTime {s : St} (j : J s) : J (sweepByTime s) := by
 theorem J_sweepBySize {s : St} (j : J s) : J (sweepBySize s) := J_sweepBySizeLoop _ j
 
 
-/-- protocol well-formedness of a label (NOT an id hypothesis): a created cursor object is fresh; `insert c` only for
-    a held, not yet cached cursor; `release c` only for a held cursor. The composite `.get` is excluded (its three
-    parts are covered as split steps); ids, new ids, interleaving, clock, knobs are arbitrary. -/
+/-! ## the composite `get` step as a refinement of its split parts -/
+
+/-- the split steps a composite `GetOrCreate` consists of, for the given state and arguments -/
+def getParts (s : St) (id q p : Nat) (ok : Bool) (k : CreateKind) (cache : Bool) (c n : Nat) : List Label :=
+  match lookup s id q p ok with
+  | (_, .refused, _) => [.lookup id q p ok]
+  | (_, .nilDeref, _) => [.lookup id q p ok]
+  | (_, .hit _, _) => [.lookup id q p ok]
+  | (s1, _, id') =>
+    match create s1 id' q p k c n with
+    | (_, .cur c2) => if cache then [.lookup id q p ok, .create id' q p k c n, .insert c2]
+                      else [.lookup id q p ok, .create id' q p k c n]
+    | _ => [.lookup id q p ok, .create id' q p k c n]
+
+/-- the composite `get` step is exactly the run of its split parts (both code shapes) -/
+theorem get_refines_split (chk byId : Bool) (s : St) (id q p : Nat) (ok : Bool) (k : CreateKind) (cache : Bool) (c n : Nat) :
+    run chk byId s (getParts s id q p ok k cache c n) = stepL chk byId s (.get id q p ok k cache c n) := by
+  simp only [stepL, getOrCreate, getParts]
+  split
+  · rename_i e; simp [run, stepL, e]
+  · rename_i e; simp [run, stepL, e]
+  · rename_i e; simp [run, stepL, e]
+  · rename_i s1 r id' h1 h2 h3 e
+    split
+    · rename_i s2 c2 e2
+      cases cache
+      · simp [run, stepL, e, e2]
+      · simp only [run, stepL, e, e2, List.foldl, if_true]
+        rcases hin : insert chk s2 c2 with ⟨s3, ir⟩
+        cases ir <;> simp
+    · rename_i hne
+      rcases hcr : create s1 id' q p k c n with ⟨s2, cr⟩
+      cases cr with
+      | cur c2 => exact absurd hcr (hne s2 c2)
+      | empty => simp [run, stepL, e, hcr]
+      | error => simp [run, stepL, e, hcr]
+
+/-- a label is one of the split steps (not the composite) -/
+def Label.isSplit : Label → Bool
+  | .get .. => false
+  | _ => true
+
+theorem getParts_split (s : St) (id q p : Nat) (ok : Bool) (k : CreateKind) (cache : Bool) (c n : Nat) :
+    ∀ l ∈ getParts s id q p ok k cache c n, l.isSplit = true := by
+  intro l hl
+  unfold getParts at hl
+  repeat' split at hl
+  all_goals (simp at hl; rcases hl with h | h | h <;> (try subst h) <;> simp_all [Label.isSplit])
+
+/-- protocol well-formedness of a label (NOT an id hypothesis): a created cursor object is fresh (also for the
+    composite `get`); `insert c` only for a held, not yet cached cursor; `release c` only for a held cursor.
+    Ids, new ids, interleaving, clock, knobs are arbitrary. -/
 def wfLabel (s : St) : Label → Prop
   | .create _ _ _ _ c _ => (s.cursors c).acquired = 0
   | .insert c => (s.cursors c).held = true ∧ ∀ e ∈ s.ring, (s.holders e).cur ≠ some c
   | .release c _ => (s.cursors c).held = true
-  | .get .. => False
+  | .get _ _ _ _ _ _ c _ => (s.cursors c).acquired = 0
   | _ => True
 
 def WF : St → List Label → Prop
   | _, [] => True
   | s, l :: tr => wfLabel s l ∧ WF (stepL true false s l) tr
 
-theorem J_step {s : St} (l : Label) (j : J s) (wf : wfLabel s l) : J (stepL true false s l) := by
-  cases l with
-  | lookup id q p ok => exact J_lookup id q p ok j
-  | create id q p k c n => exact J_create id q p k c n j wf
-  | insert c => exact J_insert c j wf.1 wf.2
-  | get id q p ok k cache c n => exact absurd wf (by simp [wfLabel])
-  | release c cp => exact (J_release c cp j wf).1
-  | age d => exact j
-  | sweepT => exact J_sweepByTime j
-  | sweepS => exact J_sweepBySize j
+theorem lookup_fallthrough {s s1 : St} {id q p : Nat} {ok : Bool} {r : LookupRes} {id' : Nat}
+    (e : lookup s id q p ok = (s1, r, id')) (h1 : r ≠ .refused) (h2 : r ≠ .nilDeref) (h3 : ∀ c, r ≠ .hit c) : s1 = s := by
+  unfold lookup at e
+  simp only [] at e
+  repeat' split at e
+  all_goals (simp only [Prod.mk.injEq] at e; obtain ⟨e1, e2, e3⟩ := e; subst e2; first | exact e1.symm | exact absurd rfl h1 | exact absurd rfl h2 | exact absurd rfl (h3 _))
 
-theorem J_run (tr : List Label) : ∀ {s : St}, J s → WF s tr → J (run true false s tr) := by
+/-- the parts of a well-formed composite `get` form a well-formed trace of split steps -/
+theorem get_parts_wf {s : St} (j : J s) (id q p : Nat) (ok : Bool) (k : CreateKind) (cache : Bool) (c n : Nat)
+    (hfresh : (s.cursors c).acquired = 0) : WF s (getParts s id q p ok k cache c n) := by
+  have hnc : ∀ e ∈ s.ring, (s.holders e).cur ≠ some c := by
+    intro e he hc; have := (J_cached_acq j he hc).2.1; omega
+  unfold getParts
+  split
+  · simp [WF, wfLabel]
+  · simp [WF, wfLabel]
+  · simp [WF, wfLabel]
+  · rename_i s1 r id' h1 h2 h3 e
+    have hs1 : s1 = s := lookup_fallthrough e (fun h => h1 h) (fun h => h2 h) (fun c h => h3 c h)
+    subst hs1
+    have hst : stepL true false s1 (.lookup id q p ok) = s1 := by simp [stepL, e]
+    split
+    · rename_i s2 c2 e2
+      have hc2 : c2 = c ∧ s2 = setCur s1 c { id := if id' = 0 then n else id', query := q, pos := p, acquired := 1, held := true, handed := true } := by
+        unfold create at e2
+        cases k <;> simp at e2
+        exact ⟨e2.2.symm, e2.1.symm⟩
+      obtain ⟨rfl, hs2⟩ := hc2
+      have hst2 : stepL true false s1 (.create id' q p k c2 n) = s2 := by simp [stepL, e2]
+      cases cache
+      · simp [WF, wfLabel, hst, hfresh]
+      · simp only [WF, wfLabel, hst, hst2, if_true, and_true, true_and]
+        refine ⟨hfresh, ?_, ?_⟩
+        · rw [hs2]; simp [setCur]
+        · rw [hs2]; exact hnc
+    · simp [WF, wfLabel, hst, hfresh]
+
+/-! ## second invariant: `close()` calls, map size = ring length, no panic -/
+
+/-- per cursor object: `close()` was called at most once, only a closed cursor had it called, and a cursor that was
+    ever handed to a request and is closed had it called -/
+def Mrec (i : CurI) : Prop :=
+  i.closeCalls ≤ 1 ∧ (i.closeCalls = 1 → i.closed = 1) ∧ (i.handed = true → i.closed = 1 → i.closeCalls = 1)
+def MOKf (f : Nat → CurI) : Prop := ∀ c, Mrec (f c)
+
+theorem MOKf_upd {f : Nat → CurI} (h : MOKf f) (c : Nat) (i : CurI) (hi : Mrec i) :
+    MOKf (fun x => if x = c then i else f x) := by
+  intro x; by_cases hx : x = c
+  · simp [hx, hi]
+  · simpa [hx] using h x
+
+structure Rest (s : St) : Prop where
+  m : MOKf s.cursors
+  sz : s.curs.size = s.ring.length
+  np : s.panicked = false
+
+theorem closeCalls0 {f : Nat → CurI} (h : MOKf f) {c : Nat} (hc : (f c).closed = 0) : (f c).closeCalls = 0 := by
+  have := h c
+  have h1 : ¬ (f c).closeCalls = 1 := fun k => by have := this.2.1 k; omega
+  have := this.1; omega
+
+theorem J_held_closed0 {s : St} (j : J s) {c : Nat} (hh : (s.cursors c).held = true) : (s.cursors c).closed = 0 := by
+  have ha := J_held_acq j hh
+  have h := j.h c
+  have h1 : ¬ (s.cursors c).closed = 1 := by
+    intro k; have := ((h.2.2.1 ha).1 k).1; rw [hh] at this; cases this
+  have := h.2.2.2; omega
+
+theorem toHead_len {r : List Nat} {e : Nat} (he : e ∈ r) : (e :: r.erase e).length = r.length := by
+  have := List.length_pos_of_mem he
+  simp [List.length_erase_of_mem he]; omega
+
+theorem Rest_init (m : Nat) (i b : Int) : Rest (init m i b) := by
+  refine ⟨?_, rfl, rfl⟩
+  intro c; simp [init, Mrec]
+
+theorem Rest_lookup {s : St} (id q p : Nat) (ok : Bool) (j : J s) (r : Rest s) : Rest (lookup s id q p ok).1 := by
+  unfold lookup
+  simp only []
+  split
+  · split
+    · rename_i e hg
+      split
+      · exact r
+      · split
+        · rename_i hnone
+          obtain ⟨_, c, hc, _⟩ := j.f id e hg
+          rw [hnone] at hc; cases hc
+        · rename_i c hc
+          split
+          · exact r
+          · have he := (j.f id e hg).1
+            refine ⟨?_, ?_, r.np⟩
+            · simp only [toHead, hset, setCur]
+              exact MOKf_upd r.m c _ (by simpa [Mrec] using r.m c)
+            · simp only [toHead, hset, setCur, tearOff, append_single]
+              rw [toHead_len he]; exact r.sz
+    · exact r
+  · exact r
+
+theorem Rest_create {s : St} (id q p : Nat) (k : CreateKind) (c n : Nat) (r : Rest s) : Rest (create s id q p k c n).1 := by
+  unfold create
+  cases k
+  · exact ⟨MOKf_upd r.m c _ (by simp [Mrec]), r.sz, r.np⟩
+  · exact ⟨MOKf_upd r.m c _ (by simp [Mrec]), r.sz, r.np⟩
+  · exact r
+
+theorem Rest_insert {s : St} (c : Nat) (j : J s) (r : Rest s) (hheld : (s.cursors c).held = true) :
+    Rest (insert true s c).1 := by
+  have hacq := J_held_acq j hheld
+  have hcc := closeCalls0 r.m (J_held_closed0 j hheld)
+  unfold insert
+  simp only [Bool.true_and]
+  split
+  · have e1 : (closeCur (setCur s c { s.cursors c with held := false }) c).cursors =
+        fun x => if x = c then { s.cursors c with held := false, closed := (s.cursors c).acquired, closeCalls := (s.cursors c).closeCalls + 1 } else s.cursors x := by
+      funext x; by_cases hx : x = c <;> simp [closeCur, setCur, hx]
+    refine ⟨?_, r.sz, r.np⟩
+    rw [e1]
+    exact MOKf_upd r.m c _ (by simp [Mrec, hacq, hcc])
+  · rename_i hg
+    have hg' : (s.curs.get (s.cursors c).id).isSome = false := by simpa using hg
+    cases hf : s.free with
+    | cons f rest =>
+      refine ⟨r.m, ?_, r.np⟩
+      simp only [hset, append_single, IdMap.set, hg', List.length_cons]
+      simp [r.sz]
+    | nil =>
+      refine ⟨r.m, ?_, r.np⟩
+      simp only [hset, append_single, IdMap.set, hg', List.length_cons]
+      simp [r.sz]
+
+theorem Rest_release {s : St} (c cp : Nat) (j : J s) (r : Rest s) (hheld : (s.cursors c).held = true) :
+    Rest (release false s c cp).1 := by
+  have hacq := J_held_acq j hheld
+  have hcc := closeCalls0 r.m (J_held_closed0 j hheld)
+  have hclose : Rest (closeCur (setCur s c { s.cursors c with held := false, pos := cp }) c) := by
+    refine ⟨?_, r.sz, r.np⟩
+    rw [release_close_cursors]
+    exact MOKf_upd r.m c _ (by simp [Mrec, hacq, hcc])
+  unfold release
+  simp only [Bool.not_false, Bool.true_and]
+  have hget : (setCur s c { s.cursors c with held := false, pos := cp }).curs.get (s.cursors c).id =
+      s.curs.get (s.cursors c).id := rfl
+  split
+  · exact hclose
+  · rename_i e hm
+    rw [hget] at hm
+    have he := (j.f _ e hm).1
+    have hh : (setCur s c { s.cursors c with held := false, pos := cp }).holders e = s.holders e := rfl
+    simp only [hh]
+    split
+    · exact hclose
+    · rename_i hcur
+      have hc : (s.holders e).cur = some c := by
+        cases h : decide ((s.holders e).cur ≠ some c) <;> simp_all
+      have hbusy : (s.holders e).busy = true := by rw [← (J_cached_acq j he hc).2.2.2]; exact hheld
+      simp only [hbusy, Bool.not_true, Bool.false_eq_true, if_false]
+      refine ⟨?_, ?_, r.np⟩
+      · simp only [toHead, hset, setCur]
+        exact MOKf_upd r.m c _ (by simpa [Mrec] using r.m c)
+      · simp only [toHead, hset, setCur, tearOff, append_single]
+        rw [toHead_len he]; exact r.sz
+
+/-- evicting a ring member: the invariants hold and nothing panics -/
+theorem Rest_evict {s : St} (e : Nat) (rc : Bool) (j : J s) (r : Rest s) (he : e ∈ s.ring) :
+    Rest (evict s e rc) ∧ (evict s e rc).ring = s.ring.erase e := by
+  obtain ⟨c, hc, hm, hacq, hcl, hheld⟩ := j.e e he
+  have hcc := closeCalls0 r.m hcl
+  have hsome : (s.curs.get (s.cursors c).id).isSome = true := by simp [hm]
+  have hlen : (s.ring.erase e).length = s.ring.length - 1 := List.length_erase_of_mem he
+  unfold evict
+  simp only [hc]
+  by_cases hb : (s.holders e).busy = true
+  · simp only [hb, Bool.not_true, Bool.false_eq_true, if_false]
+    split
+    · refine ⟨⟨r.m, ?_, r.np⟩, rfl⟩
+      simp only [hset, tearOff, IdMap.del, hsome, if_true, hlen, r.sz]
+    · refine ⟨⟨r.m, ?_, r.np⟩, rfl⟩
+      simp only [hset, tearOff, IdMap.del, hsome, if_true, hlen, r.sz]
+  · have hb' : (s.holders e).busy = false := by simpa using hb
+    have hm' : MOKf (closeCur s c).cursors := by
+      simp only [closeCur, setCur]
+      exact MOKf_upd r.m c _ (by simp [Mrec, hacq, hcc])
+    have hid : ((closeCur s c).cursors c).id = (s.cursors c).id := by simp [closeCur, setCur]
+    simp only [hb', Bool.not_false, if_true]
+    split
+    · refine ⟨⟨hm', ?_, r.np⟩, rfl⟩
+      simp only [hset, tearOff, IdMap.del, hid]
+      show (if ((closeCur s c).curs.get (s.cursors c).id).isSome = true then _ else _) = _
+      have : (closeCur s c).curs = s.curs := rfl
+      rw [this]; simp only [hsome, if_true]
+      show s.curs.size - 1 = (s.ring.erase e).length
+      rw [hlen, r.sz]
+    · refine ⟨⟨hm', ?_, r.np⟩, rfl⟩
+      simp only [hset, tearOff, IdMap.del, hid]
+      show (if ((closeCur s c).curs.get (s.cursors c).id).isSome = true then _ else _) = _
+      have : (closeCur s c).curs = s.curs := rfl
+      rw [this]; simp only [hsome, if_true]
+      show s.curs.size - 1 = (s.ring.erase e).length
+      rw [hlen, r.sz]
+
+/-! ### `Prev()` on a ring -/
+
+theorem prevAux_mem (e : Nat) : ∀ (l : Nat) (xs : List Nat), e ∈ xs → prevAux l xs e = l ∨ prevAux l xs e ∈ xs := by
+  intro l xs
+  induction xs generalizing l with
+  | nil => intro h; cases h
+  | cons x xs ih =>
+    intro h
+    unfold prevAux
+    by_cases hx : x = e
+    · simp [hx]
+    · simp only [hx, if_false]
+      have he : e ∈ xs := by rcases List.mem_cons.1 h with h | h; exact absurd h.symm hx; exact h
+      rcases ih x he with h | h
+      · right; rw [h]; exact List.mem_cons_self ..
+      · right; exact List.mem_cons_of_mem _ h
+
+theorem prev_mem {r : List Nat} {e : Nat} (he : e ∈ r) : prev r e ∈ r := by
+  unfold prev
+  cases hl : r.getLast? with
+  | none => rw [List.getLast?_eq_none_iff] at hl; subst hl; cases he
+  | some l =>
+    have hlm : l ∈ r := List.mem_of_mem_getLast? (by simp [hl])
+    simp only []
+    rcases prevAux_mem e l r he with h | h
+    · rw [h]; exact hlm
+    · exact h
+
+/-- the predecessor is either `l` (when `e` heads the list) or a different member -/
+theorem prevAux_ne (e : Nat) : ∀ (l : Nat) (xs : List Nat), e ∈ xs → xs.Nodup →
+    (xs.head? = some e ∧ prevAux l xs e = l) ∨ prevAux l xs e ≠ e := by
+  intro l xs
+  induction xs generalizing l with
+  | nil => intro h; cases h
+  | cons x xs ih =>
+    intro h hn
+    unfold prevAux
+    by_cases hx : x = e
+    · left; simp [hx]
+    · right
+      simp only [hx, if_false]
+      have he : e ∈ xs := by rcases List.mem_cons.1 h with h | h; exact absurd h.symm hx; exact h
+      rcases ih x he (List.nodup_cons.1 hn).2 with ⟨_, h2⟩ | h
+      · rw [h2]; exact hx
+      · exact h
+
+theorem prev_ne {r : List Nat} {e : Nat} (he : e ∈ r) (hn : r.Nodup) (hlen : 2 ≤ r.length) : prev r e ≠ e := by
+  unfold prev
+  match r, he, hn, hlen with
+  | x :: y :: ys, he, hn, _ =>
+    have hl : (x :: y :: ys).getLast? = some ((y :: ys).getLast (by simp)) := by
+      rw [List.getLast?_cons_cons, List.getLast?_eq_some_getLast (by simp)]
+    simp only [hl]
+    rcases prevAux_ne e _ (x :: y :: ys) he hn with ⟨h1, h2⟩ | h
+    · rw [h2]
+      simp at h1; subst h1
+      intro k
+      have : x ∈ y :: ys := by rw [← k]; exact List.getLast_mem _
+      exact (List.nodup_cons.1 hn).1 this
+    · exact h
+
+/-! ### the invariant of the repaired provider, complete -/
+
+structure K (s : St) : Prop where
+  j : J s
+  r : Rest s
+
+theorem K_evict {s : St} (e : Nat) (rc : Bool) (k : K s) (he : e ∈ s.ring) : K (evict s e rc) :=
+  ⟨J_evict e rc k.j, (Rest_evict e rc k.j k.r he).1⟩
+
+theorem K_sweepBySizeLoop (fuel : Nat) : ∀ {s : St}, K s → K (sweepBySizeLoop fuel s) := by
+  induction fuel with
+  | zero => intro s h; exact h
+  | succ n ih =>
+    intro s h
+    unfold sweepBySizeLoop
+    split
+    · rename_i hgt
+      split
+      · rename_i hnone
+        rw [List.getLast?_eq_none_iff] at hnone
+        have := h.r.sz; rw [hnone] at this; simp at this; omega
+      · rename_i e hl
+        have he : e ∈ s.ring := List.mem_of_mem_getLast? (by simp [hl])
+        have hk := K_evict e false h he
+        simp only []
+        split
+        · exact hk
+        · exact ih hk
+    · exact h
+
+theorem K_sweepByTimeLoop (cnt : Nat) : ∀ {s : St} (e : Nat), K s → cnt ≤ s.ring.length → (0 < cnt → e ∈ s.ring) →
+    K (sweepByTimeLoop cnt s e) := by
+  induction cnt with
+  | zero => intro s e h _ _; exact h
+  | succ n ih =>
+    intro s e h hlen hmem
+    have he : e ∈ s.ring := hmem (Nat.succ_pos n)
+    have he' : prev s.ring e ∈ s.ring := prev_mem he
+    unfold sweepByTimeLoop
+    simp only []
+    split
+    · have hk := K_evict (prev s.ring e) true h he'
+      have hring := (Rest_evict (prev s.ring e) true h.j h.r he').2
+      split
+      · exact hk
+      · apply ih _ hk
+        · rw [hring, List.length_erase_of_mem he']; omega
+        · intro hpos
+          rw [hring]
+          have h2 : 2 ≤ s.ring.length := by omega
+          have hne : prev s.ring (prev s.ring e) ≠ prev s.ring e := prev_ne he' h.j.a h2
+          exact (List.Nodup.mem_erase_iff h.j.a).2 ⟨hne, prev_mem he'⟩
+    · split
+      · exact h
+      · exact ih _ h (by omega) (fun _ => he')
+
+theorem K_sweepByTime {s : St} (k : K s) : K (sweepByTime s) := by
+  unfold sweepByTime
+  split
+  · exact k
+  · rename_i head tl hr
+    apply K_sweepByTimeLoop _ _ k
+    · rw [k.r.sz]; exact Nat.le_refl _
+    · intro _; rw [hr]; exact List.mem_cons_self ..
+
+theorem K_init (m : Nat) (i b : Int) : K (init m i b) := ⟨J_init m i b, Rest_init m i b⟩
+
+/-- one split step preserves the invariant -/
+theorem K_step_split {s : St} (l : Label) (hs : l.isSplit = true) (k : K s) (wf : wfLabel s l) :
+    K (stepL true false s l) := by
+  cases l with
+  | lookup id q p ok => exact ⟨J_lookup id q p ok k.j, Rest_lookup id q p ok k.j k.r⟩
+  | create id q p kd c n => exact ⟨J_create id q p kd c n k.j wf, Rest_create id q p kd c n k.r⟩
+  | insert c => exact ⟨J_insert c k.j wf.1 wf.2, Rest_insert c k.j k.r wf.1⟩
+  | get id q p ok kd cache c n => simp [Label.isSplit] at hs
+  | release c cp => exact ⟨(J_release c cp k.j wf).1, Rest_release c cp k.j k.r wf⟩
+  | age d => exact ⟨k.j, k.r.m, k.r.sz, k.r.np⟩
+  | sweepT => exact K_sweepByTime k
+  | sweepS => exact K_sweepBySizeLoop _ k
+
+theorem K_run_split (tr : List Label) : ∀ {s : St}, K s → (∀ l ∈ tr, l.isSplit = true) → WF s tr →
+    K (run true false s tr) := by
   induction tr with
-  | nil => intro s j _; exact j
-  | cons l tr ih => intro s j wf; exact ih (J_step l j wf.1) wf.2
+  | nil => intro s k _ _; exact k
+  | cons l tr ih =>
+    intro s k hs wf
+    exact ih (K_step_split l (hs l (List.mem_cons_self ..)) k wf.1) (fun x hx => hs x (List.mem_cons_of_mem _ hx)) wf.2
+
+/-- every step, the composite `get` included (through its parts) -/
+theorem K_step {s : St} (l : Label) (k : K s) (wf : wfLabel s l) : K (stepL true false s l) := by
+  cases hl : l.isSplit
+  · cases l with
+    | get id q p ok kd cache c n =>
+      rw [← get_refines_split]
+      exact K_run_split _ k (getParts_split s id q p ok kd cache c n) (get_parts_wf k.j id q p ok kd cache c n wf)
+    | _ => simp [Label.isSplit] at hl
+  · exact K_step_split l hl k wf
+
+theorem K_run (tr : List Label) : ∀ {s : St}, K s → WF s tr → K (run true false s tr) := by
+  induction tr with
+  | nil => intro s k _; exact k
+  | cons l tr ih => intro s k wf; exact ih (K_step l k wf.1) wf.2
+
+theorem J_run (tr : List Label) {s : St} (j : K s) (wf : WF s tr) : J (run true false s tr) := (K_run tr j wf).j
 
 end Logrange.Provider
